@@ -531,6 +531,7 @@ pub fn run_check(prop: &dyn Prop, tier: &str, seed: u64, pr: &mut Printer) -> i3
         .join(format!("run-{}-{}", prop.id(), std::process::id()));
     let _ = fs::remove_dir_all(&work);
     fs::create_dir_all(&work).expect("work dir");
+    std::env::set_var("BPAF_VERIF_RUNDIR", &work);
     let env = RunEnv {
         tier: tier.to_owned(),
         seed,
@@ -572,6 +573,7 @@ pub fn run_check(prop: &dyn Prop, tier: &str, seed: u64, pr: &mut Printer) -> i3
                 .arg(shard.to_string())
                 .arg(nshards.to_string())
                 .arg(&out)
+                .env("BPAF_VERIF_RUNDIR", &work)
                 .stdin(Stdio::null())
                 .stdout(Stdio::null())
                 .stderr(Stdio::inherit())
